@@ -1372,6 +1372,7 @@ bool BW_MidiSequencer::processEvents(bool isSeek)
                 }
 
                 m_currentPosition = s.startPosition;
+                m_currentPosition.wait = rowBeginPosition.wait;
                 m_loop.skipStackStart = true;
 
                 for(uint8_t i = 0; i < 16; i++)
@@ -1386,6 +1387,7 @@ bool BW_MidiSequencer::processEvents(bool isSeek)
                 if(s.loops > 0)
                 {
                     m_currentPosition = s.startPosition;
+                    m_currentPosition.wait = rowBeginPosition.wait;
                     m_loop.skipStackStart = true;
 
                     for(uint8_t i = 0; i < 16; i++)
@@ -1437,6 +1439,9 @@ bool BW_MidiSequencer::processEvents(bool isSeek)
         else if(m_loop.loopsCount < 0 || m_loop.loopsLeft >= 1)
         {
             m_currentPosition = m_loopBeginPosition;
+            // The jump keeps the time this tick still owes: the remainder recorded at the
+            // loop start would undo the progress of any tick longer than the loop body
+            m_currentPosition.wait = rowBeginPosition.wait;
             if(m_loop.loopsCount >= 1)
                 m_loop.loopsLeft--;
         }
